@@ -93,7 +93,7 @@ def run(pid, tier, seed):
         for pi in range(12 if quick else 1500):
             k = (0, 3)[pi % 2]
             name = "c02prog_%d_%d" % (seed % 1000, pi)
-            src, funcs = programs.gen_module(chk.rng, name)
+            src, funcs = programs.gen_module(chk.rng, name, with_async_gen=True)
             typer = lambda v: sexp.dumps(tyconv.canon(tyconv.ty_to_tree(get_type(v, k), tbl)))
             rec = recorder.install(typer)
             mod, path = pd.load(name, src)
